@@ -49,7 +49,8 @@ def run(ctx):
             s['flags']['noclosecheck'] = True
         # reorder ACKs on the return path (F5 territory) and lose some
         s['b2a'] = dict(loss=rng.choice([0, 0.05]), hold=rng.choice([0, 0.2, 0.4]), dup=0, budget=rng.choice([2, 6, 12]))
-        s['a2b'] = dict(loss=rng.choice([0, 0, 0.05]), hold=rng.choice([0, 0.1]), dup=rng.choice([0, 0.05]), budget=rng.choice([0, 2, 6]))
+        s['a2b'] = dict(loss=rng.choice([0, 0, 0.05]), hold=rng.choice([0, 0.1]), dup=rng.choice([0, 0.05]), budget=rng.choice([0, 2, 6, 10]),
+                        beyond=rng.choice([0, 0.1, 0.3]), coalesce=rng.choice([0, 0.1]))
         s['tag'] = 'win%d' % i
         scs.append(s)
     segs, stats, rep = tcplib.run_pair(ctx, drv, scs, ['C04'], 'c04', what='TCP window/MSS behaviour', classify=tcplib.classify_all)
